@@ -320,4 +320,46 @@ PROPS['C08'] = {
     'level_note': 'sampled parameters',
 }
 
+PROPS['C17'] = {
+    'modes': [(0, 4, 'pixel'), (0, 4, 'healpix'), (1, 4, 'pixel'), (1, 4, 'healpix')],
+    'budget': {'quick': 50, 'thorough': 300},
+    'deciding': {'C17.pixel2index': (50000, 500000), 'C17.bijection': (100, 100), 'C17.wide': (4, 10), 'C17.healpix': (100000, 1000000),
+                 'C17.coverage': (40, 400)},
+    'require_hist': {'quick': {'C17.healpix.nside': [str(2 ** k) for k in range(14)]},
+                     'thorough': {'C17.healpix.nside': [str(2 ** k) for k in range(14)]}},
+    'rule': 'cases = (pixel) 1-3-dimensional maps with dimensions 1..6, 400 real coordinates each: strictly inside, mixed inside/outside, '
+            'within 1e-3/1e-9 of pixel borders, far outside (+-1e6), float32 and float64 coordinates, judged against a NumPy row-major '
+            'reference (first coordinate fastest, -1 outside; coordinates within 1e-6 (float64) / 2e-3 (float32) of a half-integer accept '
+            'either neighbour); ALL integer grids of the 155 maps up to 6x5x4 are checked to be in bijection with 0..N-1 in row-major '
+            'order with -1 one step outside; maps with more than 2^31 pixels must give int64 and exact indices (64-bit mode); (healpix) '
+            'nside = 2^k for k = 0..13 (64-bit mode; k <= 6 otherwise), 4000 (quick) / 20000 directions per case: uniform, polar caps incl. '
+            'the poles, equatorial belt, longitudes in (-4 pi, 6 pi), pixel centres; compared with healpy.ang2pix (ring), a direction '
+            'whose healpy pixel changes under a 1e-9 (3e-6 float32) perturbation is counted boundary-ambiguous; coverage = numpy.bincount, '
+            'sum = number of samples. case key = (map rank or nside, coordinate class); non-trivial = all',
+    'assumptions': ['healpy.ang2pix (ring ordering) is the reference for HEALPix', 'non-power-of-two nside is exercised and counted but not judged (not a HEALPix resolution; the jax_healpy dependency disagrees with healpy there)',
+                    'with 64-bit mode off only nside <= 64 is compared (the library itself warns about divergence) and int64 indices do not exist'],
+    'technique': 'runtime comparison of pixel2index / world2index / get_coverage results with NumPy and healpy reference models on hostile coordinates',
+    'level_text': 'exploration: ~10^5 pixel coordinates and ~10^5-10^6 sky directions per run over every nside 1..8192; exhaustive integer grids for the 155 small maps.',
+    'level_note': 'healpy trusted; boundary-ambiguous directions are counted, not judged',
+}
+
+PROPS['C16'] = {
+    'modes': [(1, 16)],
+    'budget': {'quick': 60, 'thorough': 400},
+    'deciding': {'C16.projection': (2000, 20000), 'C16.acquisition': (1000, 10000), 'C16.ptp': (40, 400), 'C16.ptp-as_matrix': (4, 40)},
+    'require_hist': {'quick': {}, 'thorough': {}},
+    'rule': 'cases = nside in {1,2,4,8,16,64} x 4 Stokes kinds x 1-6 detectors x 1-3 directions per detector (projection) / 1 (SAT '
+            'acquisition) x 1-40 samples (uniform, longitudes outside [0, 2 pi), poles, create_random_sampling) x random float64 sky maps; '
+            'every output sample is compared with the explicit model: pixel = healpy.vec2pix(Rz(phi) Ry(theta) Rz(psi) d), (Q,U) rotated '
+            'by 2 psi, acquisition (I + Q cos 2psi - U sin 2psi)/2, reduced and rebuilt-unreduced chains equal; P.T @ P applied (and '
+            'as_matrix() for nside <= 2) before and after reduce() equals diag(bincount of hit pixels) per Stokes component; directions '
+            'whose healpy pixel changes under a 1e-9 perturbation are counted boundary-ambiguous. case key = (mode, nside, Stokes kind, '
+            'detectors, directions, sampling kind); non-trivial = at least two distinct pixels hit',
+    'assumptions': ['64-bit mode on and float64 landscapes (the only configuration in which create_acquisition can be constructed)',
+                    'healpy.vec2pix (ring ordering) is the reference pixelisation', 'SAT acquisition driven with one direction per detector (the instrument constant)'],
+    'technique': 'runtime comparison of the real projection/acquisition operators with an explicit NumPy/healpy pointing model',
+    'level_text': 'exploration: hundreds of instrument configurations, every output sample compared with the explicit pointing model.',
+    'level_note': 'x64-off runs are excluded (float32 pixel look-ups diverge from healpy, as the library warns)',
+}
+
 NOT_APPLICABLE: dict[str, str] = {}
